@@ -14,7 +14,7 @@ KIND = {
     "call": "plan.call whose function raises (run phase)",
     "gpos": "implicit gather of a structured POSITIONAL argument of plan.call (gather_set fails)",
     "gkw": "implicit gather of a structured KEYWORD argument of plan.call (gather_set fails)",
-    "gnest": "implicit gather nested in a keyword argument: dict key inside a list (gather_dict fails)",
+    "gnest": "implicit gather nested in a keyword argument: set inside a tuple inside a list (gather_set fails)",
     "gexp": "explicit plan.gather (gather_set fails)",
     "unpack": "plan.unpack of an iterable of the wrong length",
     "addw": "registry.add: store write fails (value out of date)",
@@ -31,7 +31,7 @@ ASSUMPTIONS = [
     "against the real threaded engine: identical CallError (function, stack_frame chain, message) for every fault kind",
     "stores: in-memory FStore (logical int times via duck-typed datetimes, injected failure = exception tagged with the operation); "
     "validated in this run against uberjob.stores.JsonFileStore failing for real (missing directory / corrupt file): same attribution",
-    "the failing value of the gather kinds is an object whose __hash__ raises the tagged exception (a list would raise TypeError at the same place)",
+    "the failing value of the gather kinds is a list (unhashable: TypeError inside gather_set / gather_dict); an object with a raising __hash__ is not used because CrossHair 0.0.110 swallows exceptions from __hash__ inside set()",
     "one plan of 13 user-created nodes (source, call, registry.add, 4 gather sites, unpack) built by ONE user function `_site` "
     "(source line one helper frame deeper); exactly one injected failure per run; other plan shapes are outside the claim",
     "nesting depth d in 0..DMAX (6 quick / 9 thorough) and the fault kind are small ints: CrossHair exhausts d path by path and the kind "
